@@ -13,6 +13,7 @@ import lib  # noqa: E402
 def setup():
     import translate
     ch, _ = translate.generate(lib.REPO, os.path.join(lib.COQ, "generated"))
+    lib.write_coqproject()
     rc, out, err = lib.run(["coq_makefile", "-f", "_CoqProject", "-o", "Makefile"], 120, cwd=lib.COQ)
     if rc != 0:
         print(out, err)
